@@ -78,7 +78,7 @@ class Build:
             return self
         self.tree_obj = t
         self.keys, self.tree, self.tb, self.impl = keys, tree, tb, per
-        self.case = (N(d), [_frow(r) for r in rows], [N(k) for k in keys], N(self.page_size),
+        self.case = (N(d), [_frow(r) for r in rows], [N(k) for k in keys], N(max(0, self.page_size)),
                      [U.zquery(q) for q in self.queries])
         self.result = ([_frow(r) for r in tree], _frow(tb),
                        [([N(x) for x in sorted(a)], [N(x) for x in sorted(b)], [N(x) for x in sorted(c)])
@@ -236,6 +236,8 @@ def run(rep):
         results.append(b.result)
         builds.append(b)
     rep.extra['builds'] = nb
+    import time as _t
+    rep.extra['t_python_s'] = round(_t.time() - rep.t0, 1)
     bad = C.coq_mismatches(IMPORTS, FN, CASE_TY, RES_TY, cases, results, shard=150, timeout=1200)
     seen = set()
     for i in bad:
@@ -247,8 +249,11 @@ def run(rep):
         rep.violation(sig, what, rp)
         if len(seen) > 8:
             break
+    rep.extra['t_coq_s'] = round(_t.time() - rep.t0, 1)
     run_ranges(rep, tier)
+    rep.extra['t_ranges_s'] = round(_t.time() - rep.t0, 1)
     run_log2(rep, tier)
+    rep.extra['t_log2_s'] = round(_t.time() - rep.t0, 1)
 
 
 def parse_model(txt):
